@@ -458,7 +458,7 @@ theorem Ipfix.ex_unknownElem (x : Nat) (hx : lookupElem 0 x = none) :
     (by decide) (by decide) (by decide) rfl (by decide)
     (by simp [exCacheBad, Cache.lookup, Cache.insert]) (by simp [Ipfix.minRecLen, Ipfix.specMin, exTplBad, exBadBody])
     (by simp [Ipfix.decodeData, exTplBad, Ipfix.decFields_cons, exBadBody, Rd.readN, ex_lookup_8, hx,
-      Ipfix.dataLen, tString, tOctets])
+      Ipfix.dataLen])
 
 example :
     Ipfix.decodeSet exAddr 1 ⟨⟨setBytes 400 exBadBody ++ exData2, 44⟩, exCacheBad 9000, [exRec1]⟩ =
